@@ -353,9 +353,9 @@ bool kirsch_bounded_kfifo_queue<T, Policies...>::not_in_valid_region(uint64_t ta
                                                                      uint64_t head_current) const {
   bool wrap_around = tail_current < head_current;
   if (!wrap_around) {
-    return tail_old < tail_current || head_current < tail_old;
+    return tail_old < head_current || tail_current < tail_old;
   }
-  return tail_old < tail_current && head_current < tail_old;
+  return tail_old < head_current && tail_current < tail_old;
 }
 } // namespace xenium
 #ifdef _MSC_VER
